@@ -74,6 +74,7 @@ pub struct Rw<'a> {
     used_loops: BTreeSet<usize>,
     used_closures: BTreeSet<usize>,
     used_hints: BTreeSet<usize>,
+    used_annots: BTreeSet<String>,
 }
 
 fn sel(tags: &[String], want: &[String]) -> bool {
@@ -580,7 +581,7 @@ impl<'a> VisitMut for Rw<'a> {
                         if self.iter_params.contains(&id.to_string()) && mc.method != "into_iter" {
                             self.bump("E3.into_iter");
                             let r = (*mc.receiver).clone();
-                            mc.receiver = Box::new(parse_quote!( #r .into_iter() ));
+                            mc.receiver = Box::new(Expr::Verbatim(quote!( #r .into_iter() )));
                         }
                     }
                 }
@@ -622,7 +623,7 @@ impl<'a> VisitMut for Rw<'a> {
                                         if !is_plain {
                                             self.bump("E3.collect");
                                             let inner = a.clone();
-                                            *a = parse_quote!( #inner .collect::<Vec<_>>() );
+                                            *a = Expr::Verbatim(quote!( #inner .collect::<Vec<_>>() ));
                                         }
                                     }
                                 }
@@ -651,7 +652,7 @@ impl<'a> VisitMut for Rw<'a> {
                         let l = &b.left;
                         let r = &b.right;
                         let f: Expr = parse_ex(&format!("core::ops::{}", t));
-                        *e = parse_quote!( #f ( #l , #r ) );
+                        *e = Expr::Verbatim(quote!( #f ( #l , #r ) ));
                     }
                 }
             }
@@ -724,8 +725,20 @@ impl<'a> VisitMut for Rw<'a> {
                 let hs = self.hints_at(&format!("before-loop {}", k));
                 out.extend(hs);
             }
+            let let_name: Option<String> = match &s {
+                Stmt::Local(l) => match &l.pat {
+                    Pat::Ident(pi) => Some(pi.ident.to_string()),
+                    Pat::Type(pt) => match &*pt.pat { Pat::Ident(pi) => Some(pi.ident.to_string()), _ => None },
+                    _ => None,
+                },
+                _ => None,
+            };
             self.visit_stmt_mut(&mut s);
             out.push(s);
+            if let Some(n) = let_name {
+                let hs = self.hints_at(&format!("after-let {}", n));
+                out.extend(hs);
+            }
             if let Some(k) = loop_ord {
                 let hs = self.hints_at(&format!("after-loop {}", k));
                 out.extend(hs);
@@ -735,6 +748,19 @@ impl<'a> VisitMut for Rw<'a> {
     }
 
     fn visit_local_mut(&mut self, l: &mut Local) {
+        // E12: type ascription from the contract file
+        if let Pat::Ident(pi) = &l.pat {
+            let name = pi.ident.to_string();
+            if let Some((_, t)) = self.fs.annots.iter().find(|(n, _)| *n == name) {
+                if !self.used_annots.contains(&name) {
+                    self.used_annots.insert(name.clone());
+                    self.bump("E12.let_type");
+                    let ty = parse_ty(t);
+                    let p = l.pat.clone();
+                    l.pat = Pat::Type(PatType { attrs: vec![], pat: Box::new(p), colon_token: Default::default(), ty: Box::new(ty) });
+                }
+            }
+        }
         visit_mut::visit_local_mut(self, l);
     }
 }
@@ -897,6 +923,22 @@ impl<'a> Rw<'a> {
         let spec = self.fs.closures.get(&k).cloned();
         // visit the body first
         self.visit_expr_mut(&mut cl.body);
+        // hints at the end of a block-bodied closure go before its tail expression
+        let ch = self.hints_at(&format!("closure-end {}", k));
+        if !ch.is_empty() {
+            if let Expr::Block(eb) = &mut *cl.body {
+                let tail = match eb.block.stmts.last() {
+                    Some(Stmt::Expr(_, None)) => eb.block.stmts.pop(),
+                    _ => None,
+                };
+                eb.block.stmts.extend(ch);
+                if let Some(t) = tail {
+                    eb.block.stmts.push(t);
+                }
+            } else {
+                die(&format!("lost anchor: closure {} of {} has no block body for a hint", k, self.fs.key));
+            }
+        }
         for p in cl.inputs.iter_mut() {
             self.visit_pat_mut(p);
         }
@@ -939,9 +981,10 @@ impl<'a> Rw<'a> {
                 hdr.push_str(&format!("{}, ", r));
             }
         }
-        if !spec.enss.is_empty() {
+        let enss: Vec<&String> = spec.enss.iter().filter(|(t, _)| sel(t, self.tags)).map(|(_, x)| x).collect();
+        if !enss.is_empty() {
             hdr.push_str("\n    ensures ");
-            for r in &spec.enss {
+            for r in enss {
                 hdr.push_str(&format!("{}, ", r));
             }
         }
@@ -1028,8 +1071,16 @@ pub fn emit_fn(idx: &Index, fs: &FnSpec, tags: &[String], debug_view: bool, star
         Owner::TraitImpl(_, _, t) if t == "From" || t == "TryFrom" => Some(t.clone()),
         _ => None,
     };
-    let byte_generics = byte_generics_of(&sig.generics, false);
-    let u8_generics = byte_generics_of(&sig.generics, true);
+    let mut byte_generics = byte_generics_of(&sig.generics, false);
+    let mut u8_generics = byte_generics_of(&sig.generics, true);
+    for (id, ty) in &fs.insts {
+        if !sig.generics.type_params().any(|p| p.ident == id.as_str()) {
+            die(&format!("lost anchor: type parameter `{}` of {} not found", id, fs.key));
+        }
+        u8_generics.remove(id);
+        byte_generics.insert(id.clone(), ty.clone());
+        *stats.entry("E3c.instantiated".to_string()).or_insert(0) += 1;
+    }
     let iter_generics = iter_generics_of(&sig.generics);
     let mut rw = Rw {
         idx,
@@ -1054,6 +1105,7 @@ pub fn emit_fn(idx: &Index, fs: &FnSpec, tags: &[String], debug_view: bool, star
         used_loops: BTreeSet::new(),
         used_closures: BTreeSet::new(),
         used_hints: BTreeSet::new(),
+        used_annots: BTreeSet::new(),
     };
     // implementor idents declared on the function itself (free helpers: `C: BlsSignatureImpl`)
     for p in sig.generics.type_params() {
@@ -1156,6 +1208,11 @@ pub fn emit_fn(idx: &Index, fs: &FnSpec, tags: &[String], debug_view: bool, star
         for k in fs.closures.keys() {
             if !rw.used_closures.contains(k) {
                 die(&format!("lost anchor: closure {} of {} not found", k, fs.key));
+            }
+        }
+        for (n, _) in fs.annots.iter() {
+            if !rw.used_annots.contains(n) {
+                die(&format!("lost anchor: local `{}` of {} not found", n, fs.key));
             }
         }
         for (k, (w, tags, _)) in fs.hints.iter().enumerate() {
@@ -1330,6 +1387,7 @@ pub fn emit_type(idx: &Index, ts: &TypeSpec, stats: &mut BTreeMap<String, usize>
         used_loops: BTreeSet::new(),
         used_closures: BTreeSet::new(),
         used_hints: BTreeSet::new(),
+        used_annots: BTreeSet::new(),
     };
     let mut out = String::new();
     out.push_str(&format!("// extracted from src/{}:{} (type {})\n", src.file, src.line, ts.name));
